@@ -201,3 +201,48 @@ def reuse_other_cases(dss, configs, schemes, rng, flags=(1,), every=None, env="n
                             "cfg": cfg, "flag": f, "env": e, "kseed": k,
                             "reuse": {"kind": "other", "D0": D0, "sch0": list(schemes[(k + ci + 1) % len(schemes)])}})
     return out
+
+
+def cycle_plus(rng):
+    """a Condorcet cycle of 3-4 elements plus 1-2 elements that every ranking places before (or after) the cycle: a
+    non-trivial component that does not contain every element (element 1 or the last one is outside the cycle, so that
+    under a 'mixed' naming the component may consist of digit names only)"""
+    k = rng.randint(3, 4)
+    extra = rng.randint(1, 2)
+    outside_first = rng.random() < .5
+    if outside_first:
+        out_elems = list(range(1, extra + 1))
+        cyc = list(range(extra + 1, extra + k + 1))
+    else:
+        cyc = list(range(1, k + 1))
+        out_elems = list(range(k + 1, k + extra + 1))
+    rng.shuffle(cyc)
+    D = []
+    for j in range(k):
+        rot = cyc[j:] + cyc[:j]
+        r = [[e] for e in rot]
+        o = [[e] for e in out_elems] if rng.random() < .7 else [sorted(out_elems)]
+        D.append(o + r if outside_first else r + o)
+    if rng.random() < .3:
+        D.append(D[0])
+    return D
+
+
+# two-limb schemes H*(B,T) + (B2,T2): penalties around 2^26, scores around 1e9-1e10 (beyond TLC's integers; the two
+# limbs are evaluated separately). (B2,T2) obeys the same equalities so that the sum is a valid scheme.
+HUGE_H = 2 ** 26
+HUGE = [(([0, 2, 1, 0, 2, 1], [1, 1, 0, 1, 1, 0], 1), ([0, 0, 1, 0, 0, 1], [1, 1, 0, 0, 0, 0])),
+        (([0, 2, 2, 0, 0, 0], [2, 2, 0, 0, 0, 0], 1), ([0, 1, 0, 0, 1, 0], [0, 0, 0, 1, 1, 1])),
+        (([0, 1, 1, 0, 1, 0], [1, 1, 0, 1, 1, 0], 1), ([0, 1, 1, 0, 0, 1], [0, 0, 0, 0, 0, 1]))]
+
+
+def huge_cases(dss, configs, flags=(0, 1), namings=("ints", "letters")):
+    out = []
+    for ci, cfg in enumerate(configs):
+        for k, D in enumerate(dss):
+            (s1, s2) = HUGE[(k + ci) % len(HUGE)]
+            for f in flags:
+                out.append({"D": D, "naming": namings[k % len(namings)], "sch": [list(s1[0]), list(s1[1]), 1],
+                            "sch2": [list(s2[0]), list(s2[1])], "H": HUGE_H, "cfg": cfg, "flag": f, "env": "nocplex",
+                            "kseed": k})
+    return out
